@@ -9,7 +9,7 @@ syntax-error violation builders.  Fail-closed: any other shape raises Unsupporte
 """
 import ast
 
-from translator.lib import (Unsupported, coq_list, coq_str_list, coq_string, const_value, defn, find_assign, find_class,
+from translator.lib import (Unsupported, coq_list, coq_str_list, coq_string, const_value, defn, find_class,
                             find_func, parse)
 
 GEN_FILE = "OutputGen"
